@@ -36,6 +36,10 @@ def gen_cases(ctx):
         syncgen.correlate(rng, src, dst)
         opts = syncgen.rand_options(rng, src)
         entry = rng.choice(["Project.sync", "sync_projects"])
+        if dst["jobs"] and rng.random() < 0.05:
+            # a destination-only data file that happens to be named like an editor / crash backup of the document
+            k = rng.choice(sorted(dst["jobs"]))
+            dst["jobs"][k]["files"]["signac_job_document.json~"] = ["keep me", syncgen.T0]
         if ctx.take(i):
             yield {"src": src, "dst": dst, "opts": opts, "entry": entry}
 
